@@ -12,6 +12,8 @@ ASSUMPTIONS = [
     "post-state is checked INSIDE update(): the operation is last on its machine list, is_scheduled, tracking vectors, "
     "scheduled/unscheduled/available operations and current_time already equal the independent post-state recomputation; the harness "
     "asks the cached queries between dispatches so that a stale cache would be visible",
+    "many mode: 12 recorders + the history observer subscribed; any one recorder is unsubscribed (and possibly subscribed again) before any "
+    "dispatch; more than 13 subscribers are outside the claim",
     "event alphabet: D valid dispatch (every ready op x machine), I invalid dispatch, S subscribe a new recorder, U unsubscribe the oldest "
     "recorder, R reset, H create a second HistoryObserver (must raise, must not be subscribed), G create_or_get_observer without condition, "
     "C create_or_get_observer with a condition matching only the most recently subscribed recorder, h unsubscribe / re-subscribe the "
@@ -40,6 +42,8 @@ def subspaces(tier):
     out = []
     out += C.structure_subspaces(D.shapes(3, 4), 2, False, mode="plain")
     out += C.structure_subspaces(D.shapes(3, 3), 2, True, only_flexible=True, mode="plain")
+    for sh, ms in (([1, 1], [[0], [1]]), ([2, 1], [[0], [1], [0]])):
+        out.append(dict(shape=sh, machines=ms, mode="many"))
     structs = [([1, 1], [[0], [0]]), ([2, 1], [[0], [1], [1]]), ([1, 1], [[0], [1]]), ([2, 1], [[0], [1], [0]]),
                ([1, 1], [[0, 1], [0]]), ([2], [[0, 1], [1]])]
     for i, (sh, ms) in enumerate(structs):
@@ -56,6 +60,8 @@ def subspaces(tier):
 
 
 def cost(sp):
+    if sp["mode"] == "many":
+        return 500
     return C.cost(sp) if sp["mode"] == "plain" else 10 ** (sp["length"] - 2)
 
 
@@ -239,6 +245,27 @@ def harness(eng, sp):
         new_recorder()
         new_recorder()
         for _ in range(desc.n_ops):
+            do_dispatch()
+            verify()
+        return
+
+    if sp["mode"] == "many":
+        # many subscribers (12 recorders + the history observer): any one of them is unsubscribed (and possibly subscribed again)
+        # before or between the dispatches; notification must stay once each, in subscription order
+        for _ in range(12):
+            new_recorder()
+        when = eng.choice(desc.n_ops, "unsubscribe-before-dispatch")
+        which = eng.choice(12, "which-recorder")
+        again = eng.choice(2, "subscribe-again")
+        for k in range(desc.n_ops):
+            if k == when:
+                t = subscribed[which]
+                disp.unsubscribe(recorders[t])
+                subscribed.remove(t)
+                if again:
+                    disp.subscribe(recorders[t])
+                    subscribed.append(t)
+                verify()
             do_dispatch()
             verify()
         return
